@@ -99,6 +99,10 @@ def register_c(reg):
     R = lambda p: RECENT.format(P=p)
     reg.contract(
         PM + '.on_peers_subscribe', params={'is_tor': Bool}, raises={},
+        # names of the function's locals / ghost locals its postcondition speaks about (witnesses for callers)
+        ghost_results={'peers0': Set(PeerRef), 'g_peers': Set(PeerRef), 'peers1': Set(PeerRef), 'onion1': List(PeerRef),
+                       'w1': Dict(KStr, PeerRef), 'w2': Dict(KStr, PeerRef), 'cutoff': Real, 'g_cutoff': Real,
+                       'max_onion': Int},
         locals={'buckets': Dict(KStr, List(PeerRef)), 'onion_peers': List(PeerRef), 'peers': Set(PeerRef)},
         ghost={
             ('after', 'recent = self._get_recent_good_peers()'): [
